@@ -26,12 +26,12 @@ TRUSTED = [
     "FP/Soft.lean == machine arithmetic (validated against NumPy by C10's softcheck and by the 3-way correspondence here)",
     "exact-rational oracle fav/fpx.py (round_ne on Fractions) for the ULP clauses",
 ]
-LEVEL_TEXT = ("Partial proof. Theorems: on the regenerated float16 programs, next(x) = nextafter and is_power_of_two are verified for EVERY float16 input "
-              "by kernel evaluation of the bit-exact model (a proof for that format, labelled exhaustive); the 3Sum program is the composition of four "
-              "2Sum/Fast2Sum blocks proved exact in C10 (structural tie). The 1/2/3-ULP bounds of 3Sum/4Sum/mul_add/dot2/FMA are decided by exact-rational "
-              "search on the real functions only (not theorems).")
-LEVEL_NOTE = "ULP bounds: search only. float16 theorems are exhaustive kernel evaluation of the regenerated program in the softfloat model (validated vs NumPy)."
-TECHNIQUE = "Lean 4 kernel-exhaustive proof on regenerated float16 programs + structural ties to proved 2Sum blocks + exact-rational search"
+LEVEL_TEXT = ("Partial proof. Theorem: next(x) = nextafter(x, +-inf) for EVERY precision p>=2, every emin and any round-to-nearest: for normal x = +-k*2^e, RN(x/c) and "
+              "RN(x*c) with c = 1-2^-p are the lattice neighbours (half a step at a power of two), and nothing representable lies strictly in between; lifted to the regenerated "
+              "`next` programs (kernel-checked ties to the specification program, constant c checked per format). All regenerated programs are well formed. "
+              "is_power_of_two and the 1/2/3-ULP bounds of 3Sum/4Sum/mul_add/dot2/FMA are decided by exact-rational search on the real functions only (not theorems).")
+LEVEL_NOTE = "ULP bounds of 3Sum/4Sum/mul_add/dot2/FMA and is_power_of_two: search only (Graillat-Muller proofs not formalised)."
+TECHNIQUE = "Lean 4 proof (FP theory over Q, any precision/rounding) tied to regenerated programs + 3-way correspondence + exact-rational ULP search"
 
 FMTS = ["float16", "float32", "float64"]
 SUF = blocks.SUFFIX
